@@ -6,6 +6,7 @@ import PsdVerif.Lemmas.CodecSamples
 import PsdVerif.Model.PayloadLayerInfo
 import PsdVerif.Model.PayloadSimple
 import PsdVerif.Model.PayloadEffects
+import PsdVerif.Model.PayloadPatterns
 import PsdVerif.Model.DescriptorTables
 import PsdVerif.Lemmas.Descriptor3
 
@@ -140,5 +141,21 @@ def bevelDecOld : R BevelInfo := fun d p => do
       if x.Valid then .ok (x, p) else .error .valueError
     else .error .assertionError
   else .error .assertionError
+
+/-! ### unit 4 -/
+
+def vmaUnwritten : VMA := ⟨0, none⟩
+def vmaEmpty : VMA := ⟨1, none⟩
+def vmaData : VMA := ⟨1, some ⟨8, [0, 0, 2, 3], 8, 0, [1, 2, 3, 4, 5, 6]⟩⟩
+def vmal : VMAL := ⟨3, [0, 0, 2, 3], [vmaData, vmaEmpty, vmaUnwritten, { vmaData with isWritten := 4294967295 }]⟩
+def patternRgb : Pattern := ⟨1, 3, [2, 3], [80, 0x1F600], [97, 98, 99, 45, 49], none, vmal⟩
+/-- an INDEXED pattern with its 256-entry colour table -/
+def patternIndexed : Pattern :=
+  ⟨1, 2, [-1, 32767], [], [], some ((List.range 256).map (fun i => [i, 255 - i, 7])), ⟨3, [0, 0, 1, 1], [vmaData, vmaUnwritten]⟩⟩
+def patterns : List Pattern := [patternRgb, patternIndexed]
+
+/-- excluded: an array that is not written but carries content; the empty colour table of a non-indexed pattern -/
+def vmaUnwrittenContent : VMA := ⟨0, vmaData.content⟩
+def patternEmptyTable : Pattern := { patternRgb with colorTable := some [] }
 
 end PsdVerif.Payload.Samples
